@@ -50,5 +50,6 @@ def run(tier, seed, replay=None):
              "(configurations with a pair within 1e-9 of the cutoff skipped). spec = independent 27-image minimum, O(N^2)/O(N^3) enumeration",
         assumptions=["the 3-body grid scan order is not modelled: its stored triple set is compared with the enumeration of the simple 3-body search and the spec",
                      "IEEE rounding not modelled; cell counts use exact square roots (results do not depend on them unless the algorithm is wrong)",
-                     "the assembly of the three directions into the 3-D neighbour-cell list (Nodup + completeness, the hypotheses of grid_exact) is checked on every generated configuration by the driver, the per-direction facts are theorems"],
+                     "the assembly of the three directions into the 3-D neighbour-cell list is a theorem (cellsFor_nodup, neighbour_cell_listed, and end to end grid_search_exact / grid_search_exact2 for every periodic box with non-zero determinant and every positive cutoff); the driver still checks Nodup + completeness on every generated configuration, which ties the model's cell construction to the code's",
+                     "the search in an open box (cells from the bounding box of the beads) is covered by the correspondence only"],
         trivial_tags=())
